@@ -35,6 +35,10 @@ Proof.
   - now rewrite words_from_child.
 Qed.
 
+Lemma words_from_lines ids sub : wf_skip (Lines ids) sub ->
+  words_from (Lines ids) sub = skipn (start_line sub) ids.
+Proof. destruct sub as [[k|? ?]|]; simpl; intros H; try contradiction; reflexivity. Qed.
+
 Theorem bcl_conserves : forall b c, wf_box b = true -> RS b (bcl c b).
 Proof.
   induction b as [ids|st kids rt IH] using box_ind'; intros c Hwfb p m bs sk pie a r A B C Hwfs Hrun.
@@ -62,23 +66,20 @@ Proof.
         destruct (lines_step c st pb bb pie bs ids 0 sub s0) as [O|res s'|s'] end; [discriminate| |].
       * injection Hloop as <- <- <-.
         destruct Hls as (placed & n & Hn & Hok & Hne & Hnn & Hlt & ->). simpl in Hn. rewrite Hn.
-        cbn [words_res]. rewrite words_from_child. cbn [words_from_kids words_from bwords_l flat_map].
-        rewrite app_nil_r, Hi0. cbn [words_from_kids]. cbn [bwords_l flat_map]. rewrite app_nil_r.
+        cbn [words_res]. rewrite words_from_child. rewrite Hi0. cbn [words_from_kids bwords_l flat_map].
+        rewrite !app_nil_r, (words_from_lines _ _ Hwl). cbn [words_from].
         split; [|split].
         -- rewrite (lines_ok_words _ _ _ _ _ Hok).
-           assert (Hwf' : words_from (Lines ids) (skip_sub sk) = skipn (start_line (skip_sub sk)) ids).
-           { destruct (skip_sub sk) as [[k|? ?]|]; simpl in *; try contradiction; reflexivity. }
-           rewrite Hwf'. rewrite <- (firstn_skipn (length placed) (skipn (start_line (skip_sub sk)) ids)) at 2.
+           rewrite <- (firstn_skipn (length placed) (skipn (start_line (skip_sub sk)) ids)) at 2.
            f_equal. rewrite skipn_add. f_equal. lia.
         -- cbn [wf_res]. rewrite wf_skip_child. simpl. exact Hlt.
         -- discriminate.
       * cbn [kids_loop] in Hloop. injection Hloop as <- <- <-.
         destruct Hls as (placed & Hn & Hok & Hlen). simpl in Hn. rewrite Hn.
         cbn [words_res]. rewrite app_nil_r, Hi0. cbn [words_from_kids bwords_l flat_map]. rewrite app_nil_r.
-        assert (Hwf' : words_from (Lines ids) (skip_sub sk) = skipn (start_line (skip_sub sk)) ids).
-        { destruct (skip_sub sk) as [[k|? ?]|]; simpl in *; try contradiction; reflexivity. }
+        rewrite (words_from_lines _ _ Hwl).
         split; [|split].
-        -- rewrite (lines_ok_words _ _ _ _ _ Hok), Hwf'.
+        -- rewrite (lines_ok_words _ _ _ _ _ Hok).
            replace (length placed) with (length (skipn (start_line (skip_sub sk)) ids)) by (rewrite skipn_length; lia).
            apply firstn_all.
         -- exact I.
@@ -112,6 +113,65 @@ Proof.
         exists (bcl c (Blk cst ck cr)). split.
         - apply (Forall_nth _ _ _ _ IH Hk). exact (forallb_nth _ _ _ _ Hwfk Hk).
         - apply blk_step_shape. }
-      specialize (HKL Hstep (fun _ _ Hx => match Hx with end) ).
-      idtac.
-Abort.
+      assert (Hcov0 : covers kids (skip_idx sk) (skip_sub sk) []) by (intros [|j] f Hf; discriminate Hf).
+      specialize (HKL Hstep Hcov0 ltac:(simpl; lia) eq_refl Hwfsub).
+      rewrite Hloop in HKL. cbn [fwords_l flat_map app] in HKL.
+      destruct broke.
+      * destruct HKL as (jj & x & -> & Hwx & Hwd). cbn [words_res]. rewrite words_from_child.
+        split; [exact Hwd|]. split; [|discriminate]. cbn [wf_res]. now rewrite wf_skip_child.
+      * destruct HKL as (Hcov & Hlen & Hwd). cbn [words_res]. rewrite app_nil_r.
+        split; [exact Hwd|]. split; [exact I|]. intros _.
+        apply cinv_blk; auto.
+Qed.
+Print Assumptions bcl_conserves.
+
+(* ---- the page loop ---- *)
+Definition page_words (p : side * list (Z * Z)) : list Z := map fst (snd p).
+Definition pages_words (l : list (side * list (Z * Z))) : list Z := flat_map page_words l.
+
+Theorem pages_conserve : forall fuel root H lh ltr i resume np right,
+  wf_box root = true -> wf_skip root resume ->
+  match paginate_loop fuel root H lh ltr i resume np right with
+  | PDone pages => pages_words pages = words_from root resume
+  | PFuel pages lft => pages_words pages ++ words_from root lft = words_from root resume /\ wf_skip root lft
+  | PStuck _ => True
+  end.
+Proof.
+  induction fuel as [|fuel IH]; intros root H lh ltr i resume np right Hwf Hsk; [simpl; auto|].
+  cbn [paginate_loop]. cbv zeta.
+  destruct (is_blank ltr np right).
+  - specialize (IH root H lh ltr (S i) resume np (negb right) Hwf Hsk).
+    destruct (paginate_loop fuel root H lh ltr (S i) resume np (negb right)); simpl; auto.
+  - destruct root as [ids|rst kids rt]; [exact I|].
+    match goal with |- context [bcl ?c ?b ?p ?m ?bs resume true ?a] =>
+      destruct (bcl c b p m bs resume true a) as [[[res A] B] C] eqn:Erun end.
+    destruct res as [r|]; [|exact I].
+    destruct (bcl_conserves _ _ Hwf _ _ _ _ _ _ _ _ _ _ Hsk Erun) as (Hw & Hwr & _).
+    assert (Hpage : map fst (frag_lines (b_frag r)) = fwords (b_frag r)) by apply fwords_frag_lines.
+    destruct (b_resume r) as [s|] eqn:Eres.
+    + cbn [words_res wf_res] in Hw, Hwr.
+      specialize (IH (Blk rst kids rt) H lh ltr (S i) (Some s) (b_np r) (negb right) Hwf Hwr).
+      destruct (paginate_loop fuel (Blk rst kids rt) H lh ltr (S i) (Some s) (b_np r) (negb right)) as [pages|pages lft|pages];
+        cbn [pcons]; auto.
+      * unfold pages_words in *. cbn [flat_map]. unfold page_words at 1. cbn [snd]. rewrite Hpage, IH. exact Hw.
+      * destruct IH as [IH1 IH2]. split; [|exact IH2].
+        unfold pages_words in *. cbn [flat_map]. unfold page_words at 1. cbn [snd]. rewrite Hpage, <- app_assoc, IH1. exact Hw.
+    + cbn [words_res] in Hw. rewrite app_nil_r in Hw.
+      unfold pages_words. cbn [flat_map]. unfold page_words. cbn [snd]. now rewrite app_nil_r, Hpage.
+Qed.
+Print Assumptions pages_conserve.
+
+(* the whole document: every word exactly once, in source order *)
+Lemma paginate_loop_conserves fuel root H lh pages :
+  wf_box root = true -> paginate_loop fuel root H lh true 0 None None true = PDone pages ->
+  pages_words pages = bwords root.
+Proof.
+  intros Hwf Hp.
+  pose proof (pages_conserve fuel root H lh true 0 None None true Hwf (wf_skip_none _)) as Hc.
+  rewrite Hp in Hc. now rewrite words_from_none in Hc.
+Qed.
+(* no word twice: follows from conservation when the source words are distinct *)
+Corollary paginate_no_duplicates fuel root H lh pages :
+  wf_box root = true -> NoDup (bwords root) ->
+  paginate_loop fuel root H lh true 0 None None true = PDone pages -> NoDup (pages_words pages).
+Proof. intros Hwf Hnd Hp. now rewrite (paginate_loop_conserves _ _ _ _ _ Hwf Hp). Qed.
